@@ -21,10 +21,15 @@ def splitFirst (p : Nat → Bool) : List Nat → Option (List Nat × List Nat)
       | some (x, y) => some (b :: x, y)
       | none => none
 
-/-- value of a string of ASCII digits (`none` if any other byte occurs or the string is empty) -/
+/-- digit accumulation of `i128::from_str`: every byte must be an ASCII digit -/
+def accPlain : List Nat → Nat → Option Nat
+  | [], acc => some acc
+  | b :: bs, acc => if isDigit b then accPlain bs (acc * 10 + (b - 48)) else none
+
+/-- value of a non-empty string of ASCII digits (`none` if empty or any other byte occurs) -/
 def digitsValue : List Nat → Option Nat
   | [] => none
-  | bs => bs.foldlM (fun acc b => if isDigit b then some (acc * 10 + (b - 48)) else none) 0
+  | bs => accPlain bs 0
 
 /-- `i128::from_str` : optional sign, at least one digit, no separators, range check -/
 def parseI128 (s : List Nat) : Option Int :=
